@@ -488,10 +488,54 @@ func c09ListOrderProbe(ctx *core.Ctx, res *core.Result) {
 	}
 }
 
+// c09IntermediateProbe: the file that an earlier change leaves behind cannot be printed as valid Go ('_ = g(){}'), a
+// later change turns it into valid Go again. Run one after the other, the first step fails and the file stays as it
+// was; the statement wants the combined run to report that failure too (known finding: the tree between two changes is
+// never printed). The same changes on a file where the intermediate tree is fine must agree with the chain.
+func c09IntermediateProbe(ctx *core.Ctx, res *core.Result) {
+	dir, _ := os.MkdirTemp(ctx.Tmp, "c09i")
+	defer os.RemoveAll(dir)
+	c1 := "@@\n@@\n-interTypeA\n+interMk()\n"
+	c2 := "@@\n@@\n-interMk()\n+interTypeB\n"
+	os.WriteFile(filepath.Join(dir, "c1.patch"), []byte(c1), 0o644)
+	os.WriteFile(filepath.Join(dir, "c2.patch"), []byte(c2), 0o644)
+	os.WriteFile(filepath.Join(dir, "both.patch"), []byte(c1+"\n"+c2), 0o644)
+	for _, src := range []string{"package p\n\nvar _ = interTypeA{}\n", "package p\n\nvar _ = use(interTypeA)\n"} {
+		run := func(args ...string) (string, int) {
+			os.WriteFile(filepath.Join(dir, "x.go"), []byte(src), 0o644)
+			cr := ctx.RunCLI(core.CLIOpts{Dir: dir, Args: append(args, "x.go")})
+			b, _ := os.ReadFile(filepath.Join(dir, "x.go"))
+			return string(b), cr.Exit
+		}
+		res.Evals++
+		// the chain: c1, then (if it succeeded) c2 on what it wrote
+		os.WriteFile(filepath.Join(dir, "x.go"), []byte(src), 0o644)
+		s1 := ctx.RunCLI(core.CLIOpts{Dir: dir, Args: []string{"-p", "c1.patch", "x.go"}})
+		chainFailed := s1.Exit != 0
+		if !chainFailed {
+			s2 := ctx.RunCLI(core.CLIOpts{Dir: dir, Args: []string{"-p", "c2.patch", "x.go"}})
+			chainFailed = s2.Exit != 0
+		}
+		cb, _ := os.ReadFile(filepath.Join(dir, "x.go"))
+		chain := string(cb)
+		out, exit := run("-p", "both.patch")
+		rep := map[string]string{"both.patch": c1 + "\n" + c2, "in.go": src, "actual.go": out, "chain.go": chain}
+		switch {
+		case chainFailed && exit == 0:
+			res.Violate("C09/failure-not-reported/unprintable-intermediate-tree", "chain: the first step fails ('_ = interMk(){}' is no Go) and the file stays as it is; combined run: exit 0, file rewritten to "+strings.TrimSpace(strings.SplitN(out, "\n\n", 2)[1]), rep)
+		case !chainFailed && (exit != 0 || out != chain):
+			res.Violate("C09/combined-differs-from-chain/intermediate-probe", fmt.Sprintf("exit %d", exit), rep)
+		}
+	}
+}
+
 func runC09(ctx *core.Ctx, idx int) *core.Result {
 	res := &core.Result{}
 	if idx%48 == 13 {
 		c09ListOrderProbe(ctx, res)
+	}
+	if idx%48 == 37 {
+		c09IntermediateProbe(ctx, res)
 	}
 	r := ctx.Rand("c09", idx)
 	g := gen.NewG(r)
